@@ -113,9 +113,9 @@ Definition v_addc (u : list Z) (x : Z) : res (list Z) := lift (map_buf (length u
 Definition v_dot (u v : list Z) : res Z := if (length u =? length v)%nat then lift (dotp (length u) u v) id else Throw.
 Definition v_kmult (u v : list Z) : res (list Z) :=
   if (length u =? length v)%nat then lift (otab (length u) (fun k => omul (rd v k) (rd u k))) id else Throw.
-(* outer_product: A.set(0); DGER(sz,sz,1,x=this,y=v,A,sz) *)
+(* outer_product: Matrix A(size(),v.size()); A.set(0); DGER(sz,sz,1,x=this,y=v,A,sz) with sz=size() *)
 Definition v_outer (u v : list Z) : res dense :=
-  if (length u =? length v)%nat then lift (ger (length u) (length v) u v) (dn (length u) (length v)) else Throw.
+  if (length u =? length v)%nat then lift (ger (length u) (length u) u v) (dn (length u) (length v)) else Throw.
 Definition v_sum (u : list Z) : res Z := lift (osum (length u) (fun k => oadd (Some 0) (rd u k))) id.
 Definition v_norm2 (u : list Z) : res Z := lift (dotp (length u) u u) id.
 (* subvect: om_assert(istart+isize<=nlin()) is evaluated in 32-bit unsigned arithmetic, but every element
